@@ -5,6 +5,11 @@ V = os.path.dirname(os.path.dirname(os.path.abspath(__file__)))
 ALL = ['C%02d' % i for i in range(1, 20)]
 
 CHECKS = {
+ 'C01': dict(
+   technique='static: ownership inference vs destructor release sets; must-analysis for guarded reads of the caller chunk; difference-bound guard analysis classifying 257 subscripts on (array,length) pairs (PROVED / REFUTED / UNKNOWN, unsigned-wrap detection); must-precede for unlink-before-free; use-after-may-destroy; nullness of container lookups; contradiction rule for the NULL chunk pointer',
+   text='The whole property (no UB for every input) is not decidable with the tools available; decided are necessary conditions, each for every path: every owning field (96 inferred) is released by its record\'s destructor (D13 found, replayed with LeakSanitizer, repaired); reads of the caller\'s chunk follow a fresh index < len test; subscripts on paired arrays are PROVED (213) or UNKNOWN (listed), an off-by-one guard or an unguarded unsigned x - k index is REFUTED (D12 found, replayed with UBSan, repaired); the tx destructor unlinks before free; no dereference after a call that may free the tx; container lookups are NULL-tested or index-bounded; arithmetic on the possibly-NULL chunk pointer is guarded (D16 x4 recorded).',
+   note='UNKNOWN sites are reported in evidence and never alarm. Callbacks are opaque and well behaved. Index arithmetic by small constants does not wrap.',
+   ref='§4.1'),
  'C14': dict(
    technique='static forward must-analysis (typestate) for the carried CR, pairing rules for the piece builders, exit rules for the boundary-matching state',
    text='Decides the set-aside / replay discipline that chunk independence of the multipart parser rests on, for every path: cr_aside is overwritten only when no CR is owed (D4 found here, replayed and repaired by fix 66cffda), every builder to_str is followed by clear before reuse, every exit from the boundary state replays the stored pieces first and they are cleared only after the replay, the end-of-chunk delivery excludes exactly the set-aside CR, text parts become parameters with their own name and value. Not decided: byte-exact part contents and flag equality across chunkings.',
